@@ -147,7 +147,7 @@ def run(prop, tier, seed):
     scratch = tempfile.mkdtemp(prefix='asca-verif-%s-' % prop)
     ev = dict(property_id=prop, tier=tier, seed=seed, level=cfg['level'], coverage={}, assumptions=[], wall_s=0.0, violations=0)
     undecided, violations, known_hits, stale, also_failed = [], [], [], [], []
-    verus_results, kani_results, mutant_results, stability = [], [], [], []
+    verus_results, kani_results, mutant_results, stability, reach = [], [], [], [], []
     try:
         # ---------------- Verus kernels
         vdir = os.path.join(scratch, 'verus')
@@ -310,6 +310,16 @@ def run(prop, tier, seed):
             for m in mutant_results:
                 if m['outcome'] == 'SURVIVED':
                     undecided.append('weak contract: mutant %s of kernel %s survives' % (m['id'], m['kernel']))
+        # ---------------- reachability behind every precondition (thorough tier): `assert(false)` at the start of every
+        # function under contract must FAIL; one that verifies has a contradictory `requires` (vacuous contract)
+        if tier == 'thorough' and not violations and all(r['status'] == 'ok' for r in verus_results):
+            for k in kernels:
+                pr = verus_run.reach_probe(k, REPO, os.path.join(scratch, 'verus-probe-' + k))
+                reach.append(pr)
+                if pr['status'] == 'vacuous':
+                    undecided.append('vacuous contract in kernel %s: the body of %s is unreachable under its precondition' % (k, ', '.join(pr['vacuous'])))
+                elif pr['status'] == 'undecided':
+                    undecided.append('reachability probe of kernel %s did not run: %s' % (k, pr.get('reason', '')[:200]))
     finally:
         shutil.rmtree(scratch, ignore_errors=True)
 
@@ -353,6 +363,7 @@ def run(prop, tier, seed):
                                   failed_checks=r['failed_checks'][:5], replay=r.get('replay')) for r in kani_results]),
         bounded=[dict(harness=r['harness'], bound=r['meta']['bound'], status=r['status'], note='bounded stand-in: NOT counted under obligations/discharged') for r in b_h],
         proof_stability_under_other_smt_seed=stability or None,
+        reachability_probe_behind_each_precondition=[dict(kernel=p['kernel'], functions_probed=len(p['probed']), vacuous=p['vacuous'], status=p['status']) for p in reach] or None,
         mutant_power_check=dict(run=len(mutant_results), killed=sum(1 for m in mutant_results if m['outcome'] == 'killed'), results=mutant_results) if mutant_results else None,
         proof_script_stale=stale, undecided=undecided, also_failed_not_replayed=also_failed,
         known_findings_hit=[dict(id=k['id'], obligation=k['obligation'], what=k['what'], note='fails exactly as recorded in known_findings.json; excluded from obligations/discharged') for k, _ in known_hits],
